@@ -1171,6 +1171,17 @@ class C01(fw.Prop):
         for i in range(96 if tier == "quick" else 900):
             cases.append({"seed": rng.randrange(1 << 30), "root": nm_roots[i % len(nm_roots)],
                           "nearmiss": rng.randrange(1 << 30), "size": rng.choice([3, 4, 6]), "depth": rng.choice([2, 3])})
+        # one-shot iterables (seeded change C01-h; drawn last again): the program carries "oneshot": <seed> and
+        # progs.run hands every argument the API types as Iterable (val.Left / val.Right / tys.Either, track_wires) or
+        # takes as *args over as a generator / iter / map / tuple, and builds two-variant sum constants with val.Left /
+        # val.Right / val.Some / val.None_; "sumconst" makes such constants frequent.  Every second program is inside
+        # the extended builder model, whose constant comes from the list-built value: `corr` ties the two
+        os_roots = ["dfg", "dfg", "loop", "module", "cond", "dfg", "cfg", "tdfg", "func", "dfg"]
+        for i in range(60 if tier == "quick" else 500):
+            allow = (["nested", "cond", "loop", "order", "md", "insert"] if i % 2 == 0 and os_roots[i % 10] in ("dfg", "loop", "cond")
+                     else ["nested", "cond", "loop", "cfg", "call", "order", "md", "insert", "fnval", "poly", "localfn"])
+            cases.append({"seed": rng.randrange(1 << 30), "root": os_roots[i % 10], "oneshot": rng.randrange(1 << 30),
+                          "allow": allow + ["sumconst"], "size": rng.choice([3, 4, 6]), "depth": rng.choice([2, 3])})
         # the programs of the extended stream are the most expensive to evaluate in Coq (large inserted / looping documents):
         # they are EVALUATED first (same draws, same seeds) so that their shards do not form the tail of the parallel run
         return ext + cases
@@ -1195,6 +1206,8 @@ class C01(fw.Prop):
                 q, how = near_miss(q, random.Random(case["nearmiss"] + t))
                 if how is not None:
                     return {**q, "_near_miss": how}
+        if case.get("oneshot") is not None:
+            p = {**p, "oneshot": case["oneshot"]}
         return p
 
     def observe(self, case, ctx):
@@ -1374,6 +1387,10 @@ class C01(fw.Prop):
                 d["out_of_model3"][o["out_of_model3"]] = d["out_of_model3"].get(o["out_of_model3"], 0) + 1
             for k, v in progs.kinds_of(p).items():
                 d["stmt_kinds"][k] = d["stmt_kinds"].get(k, 0) + v
+            if p.get("oneshot") is not None:
+                os_ = d.setdefault("oneshot", {"programs": 0, "sum_constants": 0})
+                os_["programs"] += 1
+                os_["sum_constants"] += sum(json.dumps(p).count(x) for x in ('["sum", 0, ["sum", [[', '["sum", 1, ["sum", [[', '["left", ', '["right", '))
         ns = sorted(d["nodes"])
         d["nodes"] = {"min": ns[0], "median": ns[len(ns) // 2], "max": ns[-1]} if ns else {}
         return d
@@ -1614,6 +1631,17 @@ NAMED["cond_empty_then_nonempty"] = {
              {"ins": [3], "stmts": [], "outs": [], "out_tys": [], "defs": []},
              {"ins": [4], "stmts": [], "outs": [4], "out_tys": ["B"], "defs": []}]}],
         "outs": [], "out_tys": [], "defs": []}}
+# seeded change C01-h (missed before the one-shot stream): val.Left / val.Right iterating `vals` twice.  The values are
+# handed over as generators ("oneshot": "gen"): the constants must still hold one value per element of the tagged row
+NAMED["oneshot_left_right_consts"] = {
+    "root": "dfg", "ins": ["B"], "oneshot": "gen",
+    "body": {"ins": [1], "stmts": [
+        {"k": "loop", "just": [1], "rest": [], "insert": False, "just_tys": ["B"], "rest_tys": [], "id": 1, "outs": [4, 5],
+         "body": {"ins": [2], "stmts": [
+             {"k": "load", "val": ["right", ["B"], [["true"], ["false"]]], "const_parent": "here", "id": 2, "outs": [3]}],
+             "outs": [3], "out_tys": [["sum", [["B"], ["B", "B"]]]], "defs": []}},
+        {"k": "load", "val": ["left", [["tuple", [["true"]]], ["unit"]], ["F"]], "const_parent": "here", "id": 3, "outs": [6]}],
+        "outs": [4, 5, 6], "out_tys": ["B", "B", ["sum", [[["tup", ["B"]], "U"], ["F"]]]], "defs": []}}
 NEG_NAMED = ["localfn", "divmod_partial_ext"]
 
 PROP = C01()
